@@ -77,10 +77,11 @@ def run(chk):
     plan = [
         dict(flavour="asan-ubsan", exe="record_algo", module="TraceAlgo", scen="transport", runs=(1500, 30000), opts={"big": 0}),
         dict(flavour="rel", exe="record_algo", module="TraceAlgo", scen="transport", runs=(500, 15000), opts={"big": 1}),
+        dict(flavour="asan-ubsan", exe="record_algo", module="TraceAlgo", scen="transport", runs=(300, 8000), opts={"big": 1}),
     ]
     run_plan(chk, "C13", plan, nontrivial)
     chk.cov["rule"] = ("exhaustive tiny problems enumerated by TLC and solved by the real TransportationProblem; seeded random problems with up to 16 sinks / 60 "
-                       "sources, integer and float costs (ties, zeros, large spreads, distance-like), balanced / slack / after increaseCapacity(); each recorded "
+                       "sources, integer and float costs (ties, zeros, large spreads, distance-like), balanced / slack / after increaseCapacity(), quantities also multiplied by 2^27..2^36 (logged in that unit); each recorded "
                        "plan is checked by TLC for feasibility, optimality (potential certificate over the residual graph) and arg-max assignment; "
                        "non-trivial = at least 2 sinks and 2 sources")
     chk.assumptions += ["optimality certificate (sink potentials) is supplied by the harness and only *checked* by TLC; soundness rests on LP duality",
